@@ -41,7 +41,7 @@ impl Import {
       }
 
       let import = hooks.manage(Self::new(package, hooks.manage(&*path)));
-      hooks.pop_roots(path.len());
+      hooks.pop_roots(path.len() + 1);
 
       Ok(import)
     } else {
